@@ -252,6 +252,31 @@ def check_cases(ctx, cases):
         d2 = o2.to_dict()
         if d2 != d:
             ctx.fail(case, f"{name}: to_dict(from_dict(to_dict(o))) differs from to_dict(o)", "dict-not-stable:" + name)
+        # other accepted ways in: the base-class dispatcher for contents, a ctime given as text, a date
+        # given as a plain integer number of seconds
+        if name in ("Content", "SkippedContent"):
+            from swh.model import model as _m
+
+            dd = copy.deepcopy(d)
+            try:
+                ob = _m.BaseContent.from_dict(dd)
+                if ob != o or type(ob) is not C or dd != d:
+                    ctx.fail(case, f"BaseContent.from_dict does not give the same {name} (or modifies its argument)", "basecontent-dispatch-differs:" + name)
+            except Exception as e:
+                ctx.fail(case, f"BaseContent.from_dict raises {type(e).__name__} on a {name} dictionary", "basecontent-dispatch-raises:" + name)
+            if name == "Content" and d.get("ctime") is not None:  # (only Content documents the text form)
+                dt_ = copy.deepcopy(d)
+                dt_["ctime"] = d["ctime"].isoformat()
+                keep = copy.deepcopy(dt_)
+                try:
+                    oc = C.from_dict(dt_)
+                    if oc != o or dt_ != keep:
+                        ctx.fail(case, f"{name}.from_dict with ctime given as ISO text gives another object / modifies its argument", "ctime-text-differs:" + name)
+                except Exception as e:
+                    ctx.fail(case, f"{name}.from_dict with ctime given as ISO text raises {type(e).__name__}", "ctime-text-raises:" + name)
+        if name == "TimestampWithTimezone" and o.timestamp.microseconds == 0 and o.offset_bytes == b"+0000":
+            if C.from_dict(o.timestamp.seconds) != o:
+                ctx.fail(case, "a date given as an integer number of seconds does not decode to that second at +0000", "date-from-int-differs")
         # sparse forms: the same dictionary with keys whose value is None left out, at every nesting
         # level, one at a time and all at once (what compact producers and older encodings send).
         # Whatever from_dict accepts must decode to the same object, and never touches its argument.
